@@ -80,6 +80,10 @@ func lockOpOf(in ssa.Instruction) (lockOp, bool) {
 	if k == "" {
 		return lockOp{}, false
 	}
+	// a read lock is a different (weaker) key: it does not license writes
+	if name == "(*sync.RWMutex).RLock" || name == "(*sync.RWMutex).RUnlock" {
+		k += "#R"
+	}
 	return lockOp{k, acquire}, true
 }
 
